@@ -191,6 +191,13 @@ def run(chk, binary):
                 n = 1
             k = (str(n) if n > 1 else "") + alias + ("Z<esc>" if op == "c" else "")
             cls = f"op {'N' if n > 1 else ''}{alias}"
+        obj = None
+        if rng_o.random() < 0.15:
+            # a word text object instead of a motion
+            obj = (rng_o.random() < 0.4, rng_o.random() < 0.5)           # (WORD?, "a" rather than "i"?)
+            mk, n = None, 1
+            k = op + ("a" if obj[1] else "i") + ("W" if obj[0] else "w") + ("Z<esc>" if op == "c" else "")
+            cls = f"op {op} + {'a' if obj[1] else 'i'}{'W' if obj[0] else 'w'}"
         put = None
         keys_ = [k]
         if op != "c" and rng_o.random() < 0.25:
@@ -198,7 +205,7 @@ def run(chk, binary):
             put = (rng_o.random() < 0.5, rng_o.choice([1, 1, 2, 3]))
             keys_.append((str(put[1]) if put[1] > 1 else "") + ("p" if put[0] else "P"))
             cls += " then " + ("N" if put[1] > 1 else "") + ("p" if put[0] else "P")
-        cases.append({"text": flat + "\n", "cursor": rng_o.choice(cursors(flat)), "keys": keys_, "cls": cls, "family": "OP", "classes": [cls], "opcase": (op, mk, n, flat), "put": put})
+        cases.append({"text": flat + "\n", "cursor": rng_o.choice(cursors(flat)), "keys": keys_, "cls": cls, "family": "OP", "classes": [cls], "opcase": (op, mk, n, flat), "put": put, "obj": obj})
     vim = VR.run_vim(cases)
     ans = server_map(binary, [{"op": "keys", "text": c["text"], "cursor": c["cursor"], "keys": ["".join(c["keys"])], "last_only": True} for c in cases])
     # the operator model against Vim: no tolerance
@@ -207,13 +214,19 @@ def run(chk, binary):
     def opterm(i):
         return (opn[cases[i]["opcase"][0]], "Z" if cases[i]["opcase"][0] == "c" else "", txt(cases[i]["opcase"][3]),
                 (C("Some", MODEL_MOTIONS[cases[i]["opcase"][1]]) if cases[i]["opcase"][1] else None), Nat(cases[i]["opcase"][2]), Nat(cases[i]["cursor"]))
-    plain = [i for i in opidx if not cases[i].get("put")]
-    withput = [i for i in opidx if cases[i].get("put")]
+    objs = [i for i in opidx if cases[i].get("obj") and not cases[i].get("put")]
+    plain = [i for i in opidx if not cases[i].get("put") and not cases[i].get("obj")]
+    withput = [i for i in opidx if cases[i].get("put") and not cases[i].get("obj")]
+    skipped_objput = [i for i in opidx if cases[i].get("obj") and cases[i].get("put")]        # compared with Vim only
+    res_obj = run_coq_eval("c02_obj", ["Base.Prelude", "Model.Motions", "Model.Ops", "Model.Obs"], "obj_obs",
+                           [(opn[cases[i]["opcase"][0]], "Z" if cases[i]["opcase"][0] == "c" else "", txt(cases[i]["opcase"][3]), cases[i]["obj"][0], cases[i]["obj"][1], Nat(cases[i]["cursor"])) for i in objs], shard=800)
     res_plain = run_coq_eval("c02_ops", ["Base.Prelude", "Model.Motions", "Model.Ops", "Model.Obs"], "op_obs", [opterm(i) for i in plain], shard=800)
     res_put = run_coq_eval("c02_opput", ["Base.Prelude", "Model.Motions", "Model.Ops", "Model.Obs"], "op_put_obs",
                            [(opterm(i), cases[i]["put"][0], Nat(cases[i]["put"][1])) for i in withput], shard=800)
     by_idx = dict(zip(plain, res_plain))
     by_idx.update(zip(withput, res_put))
+    by_idx.update(zip(objs, res_obj))
+    opidx = [i for i in opidx if i in by_idx]
     opmodel = [by_idx[i] for i in opidx]
     op_diff = []
     for i, m in zip(opidx, opmodel):
